@@ -20,6 +20,11 @@ type C13Case struct {
 	Ret      string   `json:"ret"`      // nil | err | panic
 	Transfer string   `json:"transfer"` // data | bdat1 | bdat2
 	Plain    bool     `json:"plain"`    // backend without per-recipient support
+	// Limit, Buf (used by C06): the server's MaxMessageBytes and the backend's read size. With a limit below the size of
+	// the message only the limit is judged: the reader yields at most Limit octets and never ends with EOF, whatever the
+	// order of status calls, reads and reply writes
+	Limit int64 `json:"limit,omitempty"`
+	Buf   int   `json:"buf,omitempty"`
 	Schedule []string `json:"schedule,omitempty"`
 }
 
@@ -118,7 +123,7 @@ func (w *c13World) Start(x *h.Exec) {
 	if c.Ret == "err" || c.Ret == "early" {
 		retErr = &smtp.SMTPError{Code: 554, EnhancedCode: smtp.EnhancedCode{5, 0, 0}, Message: "ret-error"}
 	}
-	plan := h.DataPlan{Max: -1, Verdict: retErr, Panic: c.Ret == "panic", KeepErr: false}
+	plan := h.DataPlan{Max: -1, Verdict: retErr, Panic: c.Ret == "panic", KeepErr: false, Buf: c.Buf}
 	if c.Ret == "early" {
 		plan.Max = 0 // give up without reading the message
 	}
@@ -148,7 +153,7 @@ func (w *c13World) Start(x *h.Exec) {
 		}
 	}
 	w.log = &h.LogBuf{}
-	srv := h.Config{LMTP: true}.NewServer(w.be, w.log)
+	srv := h.Config{LMTP: true, MaxMessageBytes: c.Limit}.NewServer(w.be, w.log)
 	w.client, w.server = h.NewDuplex()
 	gated := &h.GatedEnd{End: w.server, X: x, Name: "srv"}
 	x.Filter = func(name string) bool { return armed }
@@ -219,6 +224,19 @@ func (w *c13World) Finish(x *h.Exec) *h.Finding {
 	desc := fmt.Sprintf("rcpts=%s calls=%s before=%d ret=%s transfer=%s plain=%t schedule=%v", c.Rcpts, c.Calls, c.Before, c.Ret, c.Transfer, c.Plain, x.Schedule)
 	if a := w.be.FirstAnomaly(); a != "" {
 		return h.F("c13-backend-anomaly", "%s: %s", desc, a)
+	}
+	if c.Limit > 0 && int64(len(c13Msg)) > c.Limit {
+		for _, e := range w.be.Trace() {
+			if (e.Kind == "Data" || e.Kind == "LMTPData") && e.Arg == "0" {
+				if int64(len(e.Body)) > c.Limit {
+					return h.F("c06-backend-read-too-much", "%s limit=%d buf=%d: the backend read %d octets of a message of %d", desc, c.Limit, c.Buf, len(e.Body), len(c13Msg))
+				}
+				if e.ReadErr == "EOF" || e.ReadErr == "stopped" {
+					return h.F("c06-over-limit-eof", "%s limit=%d buf=%d: the reader of a message above the limit ended with %s after %q", desc, c.Limit, c.Buf, e.ReadErr, e.Body)
+				}
+			}
+		}
+		return nil
 	}
 	rs, err := ref.ParseReplies(w.wire)
 	if err != nil {
